@@ -91,6 +91,9 @@ var Mutants = []Mutant{
 	{ID: "scope-underscore-prefix", Props: []string{"C05"}, Rule: "R-DECLCHECK", File: "pkg/parser/scope.go", Find: "\tif name != \"_\" {\n\t\ts.vars[name] = v\n\t}", Replace: "\tif len(name) > 0 && name[0] != '_' {\n\t\ts.vars[name] = v\n\t}", Expect: "(*scope).set#only-underscore-is-anonymous", Describe: "every identifier starting with an underscore is invisible to the static scope"},
 	{ID: "numlit-error-at-next-token", Props: []string{"C03"}, Rule: "R-ERRLOC", File: "pkg/parser/expression.go", Find: "p.appendErrorForToken(err.Error(), tok)", Replace: "p.appendError(err.Error())", Expect: "parseLiteral#appendError", Describe: "`x := 1.2.3 + 4` is reported at the + instead of at the number"},
 	{ID: "loopvar-in-scope-before-range", Props: []string{"C05", "C10"}, Rule: "R-DECLCHECK", File: "pkg/parser/parser.go", Find: "\t\tp.advance() // advance past loopVarName\n\t\tp.assertToken(lexer.DECLARE)", Replace: "\t\tp.scope.set(loopVar.Name, loopVar)\n\t\tp.advance() // advance past loopVarName\n\t\tp.assertToken(lexer.DECLARE)", Expect: "parseForStatement#loopvar-after-range", Describe: "`for x := range x` refers to the loop variable itself"},
+	{ID: "for-counts-as-terminating", Props: []string{"C05", "C02"}, Rule: "R-TERMCONJ", File: "pkg/parser/ast.go", Find: "func (*ForStmt) alwaysTerminates() bool {\n\treturn false\n}", Replace: "func (f *ForStmt) alwaysTerminates() bool {\n\treturn f.Block.alwaysTerminates()\n}", Expect: "(*ForStmt).alwaysTerminates#kind", Describe: "a for loop whose body returns counts as terminating although it may run zero times"},
+	{ID: "missing-return-only-nonempty", Props: []string{"C05", "C02"}, Rule: "R-TERMCONJ", File: "pkg/parser/parser.go", Find: "\tif fd.ReturnType != NONE_TYPE && !block.alwaysTerminates() {\n\t\tp.appendError(\"missing return\")", Replace: "\tif fd.ReturnType != NONE_TYPE && !block.alwaysTerminates() && len(block.Statements) > 1 {\n\t\tp.appendError(\"missing return\")", Expect: "parseFunc#missing-return", Describe: "a one-statement function body without return is accepted"},
+	{ID: "wss-recorded-before-validation-return", Props: []string{"C06"}, Rule: "R-WSSKEEP", File: "pkg/parser/expression.go", Find: "\tp.validateBinaryType(binaryExp)\n\tif p.isWSS() {\n\t\tp.formatting.recordWSS(binaryExp)\n\t}\n", Replace: "\tif p.isWSS() && binaryExp.T != nil {\n\t\tp.formatting.recordWSS(binaryExp)\n\t}\n\tp.validateBinaryType(binaryExp)\n", Expect: "parseBinaryExpr#records-wss", Describe: "an untyped binary expression in a list is not recorded as white-space sensitive"},
 	// C05 / C06
 	{ID: "break-no-eol", Props: []string{"C05", "C06"}, Rule: "R-EOLSTATE", File: "pkg/parser/parser.go", Find: "\tp.advance() // advance past BREAK token\n\tp.assertEOL()\n", Replace: "\tp.advance() // advance past BREAK token\n", Expect: "parseBreakStatement#skip", Describe: "text after break is skipped"},
 	{ID: "if-end-no-eol", Props: []string{"C05", "C06"}, Rule: "R-EOLSTATE", File: "pkg/parser/parser.go", Find: "\tp.assertEnd()\n\tp.advance()\n\tp.assertEOL()\n\tp.recordComment(ifStmt)", Replace: "\tp.assertEnd()\n\tp.advance()\n\tp.recordComment(ifStmt)", Expect: "parseIfStatement#skip", Describe: "text after the end of an if is skipped"},
